@@ -120,7 +120,14 @@ fn run_case(case: &Case, ev: &Evidence) -> CaseResult {
             holds.insert((*m, i), h);
             match h {
                 0 => w.parties[*m].pstore.put(&psk_id(i), &[0x10 + i as u8; 32]),
-                1 => w.parties[*m].pstore.put(&psk_id(i), &[0xEE; 32]),
+                1 => {
+                    // half of the time a rotation: the member held the common value and its application replaced it
+                    if (case.c(6) as usize + *m + i) % 2 == 0 {
+                        w.parties[*m].pstore.put(&psk_id(i), &[0x10 + i as u8; 32]);
+                        ev.class("psk_values_replaced_under_the_same_id");
+                    }
+                    w.parties[*m].pstore.put(&psk_id(i), &[0xEE; 32])
+                }
                 _ => w.parties[*m].pstore.remove(&psk_id(i)),
             }
         }
@@ -460,7 +467,7 @@ pub fn run(ctx: &Ctx) -> ! {
          Oracle: exactly the members that hold the committer's value of every PSK the commit carries (resumption: the epoch is retained by the member per the C19 retention model and not older than \
          its join) process the commit and share the committer's epoch authenticator; every other member returns an error, stays in the old epoch with a canonically unchanged state (hook) and a different \
          authenticator; a joiner joins iff it holds the same external PSKs and no resumption PSK is involved; a by-value PSK the committer cannot resolve makes the build fail without changing it. \
-         (Changing value, id, nonce or order of a PSK changes the PSK secret: decided byte-for-byte by C13's differential.) Non-trivial = >= 2 PSKs, a divergent holder assignment, or a resumption epoch at the retention boundary.",
+         The PSK store is the shipped InMemoryPreSharedKeyStorage behind a counting wrapper; a 'different value' is often a replacement of the common value under the same id. (Changing value, id, nonce or order of a PSK changes the PSK secret: decided byte-for-byte by C13's differential.) Non-trivial = >= 2 PSKs, a divergent holder assignment, or a resumption epoch at the retention boundary.",
     );
     let run = |c: &Case| run_case(c, &ev);
     if let Some(path) = &ctx.replay {
